@@ -211,11 +211,11 @@ def lc_contract(given, m=2):
         snapped, grid = e.ghost["snapped"]
         kw = _fields_of(res)
         if kw is None:
-            return out + [("returns_a_landscape", False, "P")]
+            return out + [("returns_a_landscape", False, "S")]
         out.append(("result_on_the_common_grid", b_and(lift(kw.get("start")) == grid["start"], lift(kw.get("stop")) == grid["stop"], lift(kw.get("num_steps")) == grid["num_steps"]), "P"))
         V = kw.get("values")
         if not (isinstance(V, Arr) and V.ndim == 2):
-            return out + [("values_is_a_matrix", False, "P")]
+            return out + [("values_is_a_matrix", False, "S")]
         # the snapped values as handed back by snap_pl (for an entry that is the input itself: the input's values at the time of the call)
         svals = [(s.fields["values"] if s is not x["o"] else x["old"]["values"]) for s, x in zip(snapped, g["info"])]
         kmax = svals[0].shape[0]
